@@ -363,16 +363,23 @@ def derived_and_separator(ctx):
     for phase, names in (("separator '.'", want), ("separator '/'", after)):
         if phase.endswith("'/'"):
             client.factory.separator("/")
+        pfx = [p_ for p_, u_ in client.sd[0].prefixes if u_ == wsdlkit.TNS]
         for name, exp in names:
-            meta = {"stream": "derived-and-separator", "phase": phase, "name": name}
-            ctx.case(common.canon(meta), True)
-            try:
-                got = K.normal(client.factory.create(T + name))
-            except Exception as e:
-                got = "%s: %s" % (type(e).__name__, e)
-            if not (isinstance(got, dict) and K.same_value(reorder_attrs(got), reorder_attrs(exp))):
-                ctx.fail("factory object does not mirror the type's content model", meta, repr(got), repr(exp),
-                         kind="special")
+            # under both spellings of the namespace: {uri}name and the client's own prefix for it
+            for spelled in [T + name] + (["%s:%s" % (pfx[0], name)] if pfx else []):
+                meta = {"stream": "derived-and-separator", "phase": phase, "name": spelled}
+                ctx.case(common.canon(meta), True)
+                try:
+                    got = K.normal(client.factory.create(spelled))
+                except Exception as e:
+                    got = "%s: %s" % (type(e).__name__, e)
+                exp_ = exp
+                if spelled != T + name and isinstance(got, dict) and str(exp.get("__class__", "")).startswith("{"):
+                    # (an enumeration object is named as it was asked for)
+                    got, exp_ = dict(got, __class__=None), dict(exp, __class__=None)
+                if not (isinstance(got, dict) and K.same_value(reorder_attrs(got), reorder_attrs(exp_))):
+                    ctx.fail("factory object does not mirror the type's content model", meta, repr(got), repr(exp_),
+                             kind="special")
 
 
 def occurrences_roots_and_independence(ctx):
